@@ -56,7 +56,7 @@ def gen_plan(rng, index, tier):
     forced_kind = KINDS[index % 4] if index < 16 else None
     forced_npz = (index // 4) % 2 == 1 if index < 16 else None
     single_scene = (forced_kind == "single") or (forced_kind is None and rng.random() < 0.25)
-    scene = dw.gen_scene(rng, single=single_scene, nan_p=0.4)
+    scene = dw.gen_scene(rng, single=single_scene, nan_p=0.4, empty_frames=True)
     if single_scene:
         kinds = ["single"] + ([rng.choice(["centroid", "centered", "bottomup"])] if rng.random() < 0.3 else [])
     else:
